@@ -57,7 +57,7 @@ CFG = {
     theorems=[P+"C11_preorder", P+"C11_once", P+"C11_entry", P+"C11_first", P+"C11_nested", P+"C11_siblings", P+"C11_histories"],
     text="Theorems (every reachable hashed tree): the serialisation succeeds and is the pre-order list of pages, each exactly once, each as (first key, last key of its subtree, its digest); first entry spans the tree with the root hash; entries nest inside every page they are listed under; sibling spans are disjoint and ascending; empty tree gives the empty list. Every serialisation produced in the streams is compared with the model's and with an independent reference implementation.",
     assumptions=[A_TOTAL, A_LVL, A_MODEL]),
- "C12": dict(streams=S("lsmall","lrand","dsmall","drand","tdeep","dwide","tbig"), level="proof",
+ "C12": dict(streams=S("lsmall","lrand", profiles=["debug","release"]) + S("dsmall","drand","tdeep","dwide","tbig"), level="proof",
     theorems=[P+"C12_list", P+"C12_tree"],
     text="Theorems: for arbitrary valid page-range lists the output is ascending, disjoint without shared end points, start<=end; for real trees every range additionally lies within the peer's span, starts at a peer key and ends at a peer or local key.",
     assumptions=[A_TOTAL, A_LVL, A_MODEL]),
